@@ -114,3 +114,12 @@ Theorem C05_one_seat_majority_wins_scotland_for_every_accepted_file : forall A S
   forall c, In c (State.cands s) -> cid c = m -> cst c = Elected.
 Proof. exact accepted_majority_scotland. Qed.
 Print Assumptions C05_one_seat_majority_wins_scotland_for_every_accepted_file.
+
+Theorem C05_one_seat_majority_wins_cfer_for_every_accepted_file : forall A S (ZL : zlike A S) cfg,
+  exact A = false -> raw ZL (epsilon A) = 1 -> cf_nseats cfg = 1 ->
+  forall text p m fuel s k, parse_file text = Ok p -> p_linesEq p = [] -> cf_nballots cfg = p_nBallots p ->
+  In m (p_eligible p) -> p_nBallots p < 2 * first_prefs (to_count_profile p) m ->
+  exec (@crashed A) fuel (count_cmd A cfg RCfer) (init_state A cfg (to_count_profile p)) = Some (s, k) -> k <> Abort ->
+  forall c, In c (State.cands s) -> cid c = m -> cst c = Elected.
+Proof. exact accepted_majority_cfer. Qed.
+Print Assumptions C05_one_seat_majority_wins_cfer_for_every_accepted_file.
